@@ -29,6 +29,8 @@
 pub(crate) mod behaviour;
 pub(crate) mod protocol;
 
+#[cfg(libp2p_verif)]
+pub use self::behaviour::verif;
 pub use libp2p_request_response::{InboundFailure, OutboundFailure};
 
 pub use self::{
